@@ -286,3 +286,54 @@ fn vk_string_mixed() {
     // 'a', U+1F600 = D83D DE00, U+FFFD
     check_string("a\u{1f600}\u{fffd}", &[0x61, 0xd83d, 0xde00, 0xfffd], 4);
 }
+
+// ---------------------------------------------------------------------------
+// contract-stubs used by harnesses of *callers* (never by the harnesses above): same effect on the image
+// as the real functions (proved in Verus unit mem_writer / checked above), without the byte-wise loops
+// of Vec::resize and of scroll's field-by-field serialisation, which dominate CBMC's cost for the
+// 1232-byte CPU context.
+// ---------------------------------------------------------------------------
+pub(crate) fn stub_alloc_with_val<T>(buffer: &mut Buffer, _val: T) -> WriteResult<MemoryWriter<T>>
+where
+    T: TryIntoCtx<scroll::Endian, Error = scroll::Error> + SizeWith<scroll::Endian>,
+{
+    let position = buffer.position();
+    let size = size!(T);
+    let z = vec![0u8; size];
+    buffer.write_all(&z);
+    Ok(MemoryWriter { position: position as u32, size, phantom: std::marker::PhantomData })
+}
+
+pub(crate) fn stub_alloc_array<T>(buffer: &mut Buffer, array_size: usize) -> WriteResult<MemoryArrayWriter<T>>
+where
+    T: TryIntoCtx<scroll::Endian, Error = scroll::Error> + SizeWith<scroll::Endian>,
+{
+    let position = buffer.position();
+    let z = vec![0u8; array_size * size!(T)];
+    buffer.write_all(&z);
+    Ok(MemoryArrayWriter { position: position as u32, array_size, phantom: std::marker::PhantomData })
+}
+
+pub(crate) fn array_size_of<T>(w: &MemoryArrayWriter<T>) -> usize { w.array_size }
+
+
+// layout-only variants: the image end is a ghost counter (Buffer::position is stubbed to read it), no bytes
+// are materialised. Used where only positions matter and 20+ allocations would exhaust CBMC's memory.
+pub(crate) static mut GHOST_POS: u64 = 0;
+pub(crate) fn stub_position(_b: &Buffer) -> u64 { unsafe { GHOST_POS } }
+pub(crate) fn stub_alloc_with_val_nogrow<T>(_buffer: &mut Buffer, val: T) -> WriteResult<MemoryWriter<T>>
+where
+    T: TryIntoCtx<scroll::Endian, Error = scroll::Error> + SizeWith<scroll::Endian>,
+{
+    core::mem::forget(val);
+    let size = size!(T);
+    let position = unsafe { let p = GHOST_POS; GHOST_POS += size as u64; p };
+    Ok(MemoryWriter { position: position as u32, size, phantom: std::marker::PhantomData })
+}
+pub(crate) fn stub_alloc_array_nogrow<T>(_buffer: &mut Buffer, array_size: usize) -> WriteResult<MemoryArrayWriter<T>>
+where
+    T: TryIntoCtx<scroll::Endian, Error = scroll::Error> + SizeWith<scroll::Endian>,
+{
+    let position = unsafe { let p = GHOST_POS; GHOST_POS += (array_size * size!(T)) as u64; p };
+    Ok(MemoryArrayWriter { position: position as u32, array_size, phantom: std::marker::PhantomData })
+}
